@@ -86,6 +86,15 @@ class MapDSStateful(MapDS):
         self.calls = sd["calls"]
 
 
+class MapRng(MapDS):
+    """Items depend on the per-worker global RNG (seeded by the loader's base seed): the same checkpoint must give
+    the same continuation every time it is loaded, whatever the loading process' own seed is."""
+
+    def __getitem__(self, i):
+        self.fail.check(i)
+        return 100 * i + int(torch.randint(0, 100, (1,)).item())
+
+
 class IterPlain(tud.IterableDataset):
     """No state_dict anywhere: the loader must fast-forward."""
 
@@ -369,6 +378,8 @@ def _make_dataset(cfg):
         return MapDS(cfg["n"], fail)
     if k == "map_stateful":
         return MapDSStateful(cfg["n"], fail)
+    if k == "map_rng":
+        return MapRng(cfg["n"], fail)
     sizes = cfg["sizes"]
     if k == "iter_plain":
         return IterPlain(sizes, fail)
